@@ -11,7 +11,7 @@ from ansi_string import AnsiString, AnsiStr, AnsiFormat, AnsiSetting
 LEVEL = 'model_checking'
 AnsiString.WITH_ASSERTIONS = True            # the library's own consistency self-check
 
-STRS = ('', 'a', ' ', 'ab', '\t')
+STRS = ('', 'a', 'ba', ' ', '\t', 'ab')
 WIDTHS = (0, 4, 7, 1, -3, 10000)
 SPECS = (None, '', '>5', '^6:red', ' -<7:bold', 'x5', '+5', ':underline', '<', '0>4', ':<3', '^', '5', '<5:nosuch', ':rgb(1,2,3)', '-^9:[1m')
 SETTINGS = ('red', ['bold', 'red'], '[38;5;9', '', [], AnsiFormat.BG_BLUE, 'rgb(300,0,0)', '[1m', 22)
@@ -200,7 +200,7 @@ def h_op(op: int, r: int, xi: int, yi: int, i: Optional[int], j: Optional[int], 
         if rr is None:
             return None
         try:
-            o2[1](s, STRS[rr + 1], 'a', rr - 1, 2, 4, rr)
+            o2[1](s, STRS[(1, 3, 5)[rr]], 'a', rr - 1, 2, 4, rr)
         except Exception:
             cover('first-step-error')
             return None
@@ -251,7 +251,7 @@ def h_receivers(r: int):
 
 BOUNDS = {
     'quick': '%d operation groups (the whole public surface incl. parsing helpers) x 5 of %d reachable receivers (plain, overlapping, sliced, centered+concatenated, equal seams, '
-             'parsed, applied beyond the end + invalid setting + removed, empty, matched/removed/replaced, simplified+assigned) x 3x2 string arguments (incl. empty) x '
+             'parsed, applied beyond the end + invalid setting + removed, empty, matched/removed/replaced, simplified+assigned) x 4x2 string arguments (incl. empty; 4x3 for replace, so that the replacement can contain the pattern) x '
              'up to 6 widths (incl. 0, negative, 10000 for center/zfill) x up to 4 settings/specs; range/index arguments from (-7,-1,0,2,99) (thorough: ALL integers / None where '
              'the operation does not realise them, full palettes); after an error: receiver unchanged; after success: 8 renderings, every index, slices, concatenations, simplify, copy under WITH_ASSERTIONS; '
              'per-path watchdog for termination' % (len(OPS), N_RECV),
@@ -293,7 +293,7 @@ def obligations(tier):
         if not d.get('q'):
             fixed['q'] = 0
         if tier == 'quick':
-            fq = dict(fixed, rset=(2, 4, 7, 9, 8), nx=3, ny=2, ints=(-7, -1, 0, 2, 99), wmax=min(fixed['wmax'], 2) if name not in ('center', 'zfill') else fixed['wmax'],
+            fq = dict(fixed, rset=(2, 4, 7, 9, 8), nx=4, ny=3 if name == 'replace' else 2, ints=(-7, -1, 0, 2, 99), wmax=min(fixed['wmax'], 2) if name not in ('center', 'zfill') else fixed['wmax'],
                       qmax=min(fixed['qmax'], 3))
             if name == 'ansistr':
                 for xi in range(3):
